@@ -160,7 +160,7 @@ def search(ctx):
                 tot = _flat_field(calc_field(det, coll, illum_polarization=pol, theory=mk(), **OPT))
                 parts = sum(_flat_field(calc_field(det, s, illum_polarization=pol, theory=mk(), **OPT)) for s in members)
                 dev = float(np.abs(tot - parts).max())
-                if dev > 1e-12 * max(1e-30, float(np.abs(parts).max())):
+                if not (dev <= 1e-12 * max(1e-30, float(np.abs(parts).max()))):
                     ctx.violation("C06:superposition:%s" % name, "field of the collection != sum of the members' fields (dev %.3g, %d members)" % (dev, m), info)
             elif k == 1:
                 # polarisation linearity: E(a, b) = (a E_x + b E_y)/|(a, b)|
@@ -178,7 +178,7 @@ def search(ctx):
                 want = (a * Ex + b * Ey) / math.hypot(a, b)
                 dev = float(np.abs(E - want).max())
                 tol = 1e-7 if name == "Lens(Mie)" else (1e-9 if "Lens" in name or name == "Multisphere" else 1e-12)
-                if dev > tol * max(1e-30, float(np.abs(want).max())):
+                if not (dev <= tol * max(1e-30, float(np.abs(want).max()))):
                     ctx.violation("C06:linearity:%s" % name, "field for polarisation (a, b) != (a E_x + b E_y)/|(a, b)| (rel dev %.3g)" % (dev / float(np.abs(want).max())), info)
             else:
                 # multi-channel == stacked single-channel
@@ -219,7 +219,7 @@ def search(ctx):
                     h1 = calc_holo(d1, s1, medium_index=1.33, illum_wavelen=wl[l], illum_polarization=pols[labels[0]] if pol_one else pols[l], theory=Mie())
                     got = hm.sel(illumination=l).transpose('x', 'y', 'z').values
                     dev = float(np.abs(got - h1.transpose('x', 'y', 'z').values).max())
-                    if dev > 1e-12 * float(np.abs(h1.values).max()):
+                    if not (dev <= 1e-12 * float(np.abs(h1.values).max())):
                         ctx.violation("C06:channels", "channel %r of the multi-channel hologram != the single-channel calculation (dev %.3g)" % (l, dev),
                                       dict(channel=l, **info))
                         break
